@@ -983,6 +983,42 @@ def exit_status_cases(col, inidir, pairs):
                         inp, observed={"exit": code, "stderr": err[-300:]}, expected="exit %d" % want)
 
 
+# --------------------------------------------------------------------------- per-path [rules]: scope of one rule
+RULE_SCOPE_CASES = [
+    # (lhs, rhs, rule path, rule mode, key governed by the rule, sibling key that no rule names)
+    ("a: {c: [1, 2]}\nb: {c: [1, 2]}\n", "a: {c: [2, 1]}\nb: {c: [2, 1]}\n", "/a/c", "value", "a", "b"),
+    ("x: {p: [1, 2], q: 0}\ny: {p: [1, 2], q: 0}\n", "x: {p: [2, 1], q: 0}\ny: {p: [2, 1], q: 0}\n", "/y/p", "value", "y", "x"),
+    ("a: {c: [{id: 1}, {id: 2}]}\nb: {c: [{id: 1}, {id: 2}]}\n", "a: {c: [{id: 2}, {id: 1}]}\nb: {c: [{id: 2}, {id: 1}]}\n", "/a/c", "key", "a", "b"),
+]
+
+
+def rule_scope_cases(col, inidir):
+    """A [rules] entry selects the mode of the node it NAMES: the reordered sequence under the named key shows no
+    difference (synchronised mode), the equal-looking sequence under the sibling key is still compared by position."""
+    _, DifferConfig, _, _, _ = _lib()
+    for (ly, ry, rpath, mode, named, sibling) in RULE_SCOPE_CASES:
+        ini = os.path.join(inidir, "c06_rule_%s.ini" % harness.stable_hash([ly, rpath, mode]))
+        with open(ini, "w") as fh:
+            fh.write("[rules]\n%s = %s\n" % (rpath, mode))
+        ns = SimpleNamespace(arrays=None, aoh=None, config=ini)
+        inp = {"lhs": ly, "rhs": ry, "rules": {rpath: mode}, "via": "ini-rules"}
+        res = run_differ(DifferConfig(_LOG, ns), gen.load(ly), gen.load(ry))
+        col.case(("rule-scope", rpath, mode, res[0]))
+        if res[0] != "ok":
+            col.witness("C06/rule-scope/raised-%s" % type(res[1]).__name__, "a per-path rule makes the comparison fail", inp,
+                        observed=repr(res[1]), expected="a report")
+            continue
+        ents = res[1]
+        under = lambda k: [e for e in ents if e[1] == k or e[1].startswith(k + ".") or e[1].startswith(k + "[")]
+        if any(e[0] != "SAME" for e in under(named)):
+            col.witness("C06/rule-scope/rule-not-applied-at-the-path-it-names", "the named sequence is still compared by position", inp,
+                        observed=[list(e[:2]) for e in under(named)], expected="no difference under %s" % named)
+        if not any(e[0] != "SAME" for e in under(sibling)):
+            col.witness("C06/rule-scope/rule-governs-a-path-it-does-not-name", "the sibling sequence is reordered and no rule names it, "
+                        "yet no difference is reported", inp, observed=[list(e[:2]) for e in under(sibling)],
+                        expected="CHANGE entries under %s" % sibling)
+
+
 def _run_main(yaml_diff, argv):
     old = sys.argv
     out, err = io.StringIO(), io.StringIO()
@@ -1101,6 +1137,7 @@ def run(tier="quick", seed=0, jobs=None):
             pairs.append((gen.to_yaml(d), gen.to_yaml(d), rng.choice(MODES)))
         b["E_main_runs"] = len(pairs)
         exit_status_cases(col, inidir, pairs)
+        rule_scope_cases(col, inidir)
         lap("E")
         b["phase_wall_s"] = phase
     finally:
@@ -1130,6 +1167,8 @@ def replay(inp):
     try:
         if inp.get("via") == "main":
             exit_status_cases(col, inidir, [(inp["lhs"], inp["rhs"], (inp["arrays"], inp["aoh"]))])
+        elif inp.get("via") == "ini-rules":
+            rule_scope_cases(col, inidir)
         else:
             L = gen.load(inp["lhs"])
             R = L if inp.get("same_object") else gen.load(inp["rhs"])
